@@ -31,6 +31,7 @@ import (
 	"time"
 
 	"github.com/gogo/protobuf/proto"
+	"github.com/pingcap/kvproto/pkg/encryptionpb"
 	"github.com/pingcap/kvproto/pkg/metapb"
 	"github.com/pingcap/kvproto/pkg/pdpb"
 	"github.com/tikv/pd/server"
@@ -60,6 +61,12 @@ type Req struct {
 	Kind    string `json:"kind"`              // ok | one of badKinds
 	WrongID int    `json:"wrongId,omitempty"` // 0 right cluster id; 1 id+1; 2 zero id; 3 no header at all; 4 arbitrary other id
 	Labels  int    `json:"labels,omitempty"`  // number of store labels (payload variety)
+	// Shape: unusual first regions / stores that the request validation (checkBootstrapRequest:
+	// store with non-zero id; region with non-zero id and empty key range; exactly one peer, on that
+	// store, with non-zero id) admits: 0 plain, 1 region that already carries an encryption_meta,
+	// 2 no region epoch, 3 zero epoch, 4 the peer is a learner, 5 huge epoch + store with start
+	// timestamp / deploy path / git hash, 6 the peer is an incoming voter.
+	Shape int `json:"shape,omitempty"`
 }
 
 type BootCase struct {
@@ -72,6 +79,9 @@ type BootCase struct {
 	Repeat  bool   `json:"repeat,omitempty"`  // re-send every earlier request afterwards
 	Reelect bool   `json:"reelect,omitempty"` // the leader steps down and is re-elected, then requests are repeated
 	Fault   *Fault `json:"fault,omitempty"`   // first of all: one valid request with an etcd fault injected into one of its etcd requests
+	// RSFault: the member-local region store (leveldb "region-meta", a cache of the regions kept in
+	// etcd) is broken for the whole case: its leveldb handle is closed before the first request.
+	RSFault bool `json:"rsFault,omitempty"`
 }
 
 // Fault: a valid Bootstrap request is first run fault-free on the fresh server to count the etcd
@@ -93,6 +103,9 @@ func genReq(t *rapid.T, pOK int) Req {
 		r.WrongID = rapid.IntRange(1, 4).Draw(t, "wrongId")
 	}
 	r.Labels = rapid.IntRange(0, 2).Draw(t, "labels")
+	if rapid.IntRange(0, 2).Draw(t, "unusual") == 2 {
+		r.Shape = rapid.IntRange(1, 6).Draw(t, "shape")
+	}
 	return r
 }
 
@@ -124,6 +137,8 @@ func genBoot(t *rapid.T) BootCase {
 		c.Fault = &Fault{N: rapid.IntRange(0, 63).Draw(t, "faultN"),
 			Kind:   rapid.SampledFrom([]string{"before", "lostack"}).Draw(t, "faultKind"),
 			Labels: rapid.IntRange(0, 2).Draw(t, "faultLabels")}
+	} else {
+		c.RSFault = rapid.IntRange(0, 5).Draw(t, "regionStoreFault") == 5
 	}
 	return c
 }
@@ -146,6 +161,21 @@ func mkInst(c BootCase, r Req, idx int, cid uint64) *inst {
 	}
 	region := &metapb.Region{Id: rid, RegionEpoch: &metapb.RegionEpoch{ConfVer: 1, Version: 1},
 		Peers: []*metapb.Peer{{Id: pid, StoreId: sid}}}
+	switch r.Shape {
+	case 1:
+		region.EncryptionMeta = &encryptionpb.EncryptionMeta{KeyId: 7, Iv: bytes.Repeat([]byte{byte(idx + 1)}, 16)}
+	case 2:
+		region.RegionEpoch = nil
+	case 3:
+		region.RegionEpoch = &metapb.RegionEpoch{}
+	case 4:
+		region.Peers[0].Role = metapb.PeerRole_Learner
+	case 5:
+		region.RegionEpoch = &metapb.RegionEpoch{ConfVer: 1 << 40, Version: 1 << 50}
+		store.StartTimestamp, store.DeployPath, store.GitHash = 1600000000+int64(idx), "/data/tikv", "0123abcd"
+	case 6:
+		region.Peers[0].Role = metapb.PeerRole_IncomingVoter
+	}
 	req := &pdpb.BootstrapRequest{Store: store, Region: region}
 	switch r.Kind {
 	case "nostore":
@@ -693,6 +723,17 @@ type bootRun struct {
 	// code's own TODO "figure out a better way to handle bootstrap failed"): region-storage and
 	// served-region checks accept "absent" besides "the winner's".
 	degraded bool
+	rsFault  bool // the case runs with a broken member-local region store
+}
+
+// regionCopyOptional: when the member-local region store cannot take the first region (it is
+// broken, or the region already carries an encryption_meta, which RegionStorage.SaveRegion
+// refuses), bootstrapCluster only warns — the authoritative record is the one in etcd — and the
+// cluster starts without the region in its cache until the first heartbeat. Then (and in the
+// degraded state) the region-store copy and the served region may be absent; they may never be
+// another region.
+func (b *bootRun) regionCopyOptional() bool {
+	return b.degraded || b.rsFault || (b.winner != nil && b.winner.req.GetRegion().GetEncryptionMeta() != nil)
 }
 
 // classify checks what holds for the outcome of a request whenever it is sent: a wrong cluster
@@ -842,8 +883,8 @@ func (b *bootRun) verify(stage string, unchanged bool) error {
 		return fmt.Errorf("%s: LoadStore(%d) gives %v (%v, %v), want %v", stage, wstore.GetId(), &ls, ok, err, wstore)
 	}
 	var lr metapb.Region
-	if ok, err := st.LoadRegion(wregion.GetId(), &lr); err == nil && !ok && b.degraded {
-		// see degraded
+	if ok, err := st.LoadRegion(wregion.GetId(), &lr); (b.rsFault && err != nil) || (err == nil && !ok && b.regionCopyOptional()) {
+		// see regionCopyOptional
 	} else if err != nil || !ok || !protoEq(&lr, wregion) {
 		return fmt.Errorf("%s: LoadRegion(%d) gives %v (%v, %v), want %v", stage, wregion.GetId(), &lr, ok, err, wregion)
 	}
@@ -859,9 +900,12 @@ func (b *bootRun) verify(stage string, unchanged bool) error {
 		loadedRegions = append(loadedRegions, r.GetMeta())
 		return nil
 	}); err != nil {
-		return errInconclusive
+		if !b.rsFault {
+			return errInconclusive
+		}
+		loadedRegions = nil
 	}
-	if b.degraded && len(loadedRegions) == 0 {
+	if b.regionCopyOptional() && len(loadedRegions) == 0 {
 		// see degraded
 	} else if len(loadedRegions) != 1 || !protoEq(loadedRegions[0], wregion) {
 		return fmt.Errorf("%s: LoadRegions gives %v, want only the winner's %v", stage, loadedRegions, wregion)
@@ -873,13 +917,20 @@ func (b *bootRun) verify(stage string, unchanged bool) error {
 	if !isb.GetBootstrapped() {
 		return fmt.Errorf("%s: %s succeeded but IsBootstrapped says false", stage, w.name)
 	}
+	gs2, err := svr.GetStore(ctx, &pdpb.GetStoreRequest{Header: &pdpb.RequestHeader{ClusterId: b.cid}, StoreId: wstore.GetId()})
+	if err != nil && (envError(err.Error()) || strings.Contains(err.Error(), "not leader")) {
+		return errInconclusive
+	}
+	if err != nil || gs2.GetHeader().GetError() != nil || !protoEq(gs2.GetStore(), wstore) {
+		return fmt.Errorf("%s: %s succeeded but GetStore(%d) answers %v (header %v, error %v)", stage, w.name, wstore.GetId(), gs2.GetStore(), gs2.GetHeader(), err)
+	}
 	if sm := rc.GetConfig(); !protoEq(sm, wantMeta) {
 		return fmt.Errorf("%s: served cluster meta is %v, want %v", stage, sm, wantMeta)
 	}
 	if ss := rc.GetMetaStores(); len(ss) != 1 || !protoEq(ss[0], wstore) {
 		return fmt.Errorf("%s: served stores are %v, want only the winner's %v", stage, ss, wstore)
 	}
-	if rs := rc.GetMetaRegions(); b.degraded && len(rs) == 0 {
+	if rs := rc.GetMetaRegions(); b.regionCopyOptional() && len(rs) == 0 {
 		// see degraded
 	} else if len(rs) != 1 || !protoEq(rs[0], wregion) {
 		return fmt.Errorf("%s: served regions are %v, want only the winner's %v", stage, rs, wregion)
@@ -1107,6 +1158,14 @@ func runBootOn(f *liveFix, c BootCase) (vkit.Info, error) {
 	if err := b.verify("before any request", false); err != nil {
 		return info, err
 	}
+	// ---- a broken member-local region store for the whole case
+	if c.RSFault && c.Fault == nil {
+		if rs := f.cur.GetRegionStorage(); rs != nil {
+			rs.LeveldbKV.Close()
+			b.rsFault = true
+			info.Class("region-store-broken")
+		}
+	}
 	// ---- one valid request with an injected etcd fault
 	if c.Fault != nil {
 		if err := b.faultPhase(c, &info, mk, install); err != nil {
@@ -1131,6 +1190,7 @@ func runBootOn(f *liveFix, c BootCase) (vkit.Info, error) {
 			nValid++
 		}
 		info.Class("race-" + kindClass(r))
+		info.ClassIf(r.Shape != 0, fmt.Sprintf("race-unusual-shape-%d", r.Shape))
 	}
 	if c.Mode == "gate" {
 		s := gate.New()
